@@ -319,7 +319,19 @@ OTHER_LINES = ["", "A,B,C", "1,2,3", "0.5\t0.25", "MainRun,1,2", "mainruns,0,31P
 
 
 def generate_other(rng):
-    """text files that are not iCap exports: 0..6 lines, never 'MainRuns' on line 0 or 2"""
+    """text files that are not iCap exports: 0..6 lines, never 'MainRuns' on line 0 or 2; one time in four an export that
+    is preceded by a title line or blank lines, so that MainRuns stands on every line but the first and the third"""
+    if rng.random() < 0.25:
+        delimiter, decimal = rng.choice([(",", "."), (";", "."), (";", ",")])
+        a = small_acq(rng, decimal)
+        layout = rng.choice(["rows", "cols", "cols"])
+        body = [delimiter.join(r) for r in (table_rows(a) if layout == "rows" else table_cols(a))]
+        lead = [rng.choice(["", "Qtegra export", delimiter * 4, "sep=" + delimiter]) for _ in range(1 if layout == "rows" else rng.choice([1, 2, 3]))]
+        lines = lead + body
+        if layout == "rows":
+            lines = lines[:2] + [ln.replace("MainRuns", "Main Runs") for ln in lines[2:3]] + lines[3:]
+        return {"kind": "sniff_other", "lines": lines, "eol": rng.choice(["\n", "\r\n"]), "bom": rng.random() < 0.3, "final_eol": True,
+                "shifted": layout}
     nl = rng.choice([0, 1, 2, 2, 3, 4, 6])
     lines = [rng.choice(OTHER_LINES) for _ in range(nl)]
     for j in range(nl):
@@ -602,7 +614,10 @@ def generate_text(rng, tier, layout=None, edits=None):
 #                          archive / backup, cp -p, rsync -t: new inode, same time)
 #         "natural"      : written in place, the file system stamps it
 #         "bump"         : written in place, modification time one second later than before
-HOWS = ["keep", "keep", "keep", "replace-keep", "replace-keep", "natural", "natural", "bump"]
+#         "clock-1s"     : written in place and stamped with one fixed whole second, the same for every file written this way
+#                          (files from an archive or a file system with coarse time stamps: different files, equal times)
+# Path 2 lies in a sub-directory and has the file name of path 0.
+HOWS = ["keep", "keep", "keep", "replace-keep", "replace-keep", "natural", "natural", "bump", "clock-1s", "clock-1s"]
 CALL_SETS = [["sniff"], ["load"], ["sniff", "load"], ["sniff", "load", "data", "params"], ["data"], ["params"], ["load", "load"],
              ["sniff", "sniff"], ["load", "data"], ["data", "params", "load"]]
 
@@ -704,7 +719,7 @@ def generate_history(rng, tier, script=None):
         script = []
         nsteps = rng.choice([3, 4, 4, 5, 6, 7])
         for q in range(nsteps):
-            script.append({"path": 0 if rng.random() < 0.75 else 1,
+            script.append({"path": rng.choice([0, 0, 0, 0, 0, 0, 1, 1, 2]),
                            "what": rng.choice(["rows", "cols", "rows", "cols", "other", "same", "other-same-size", None, None]),
                            "acq": rng.randrange(3), "how": rng.choice(HOWS), "calls": rng.choice(CALL_SETS), "mutate": rng.random() < 0.3})
     cur, steps = {}, []
